@@ -126,3 +126,36 @@ func forgetCall(maxCycle uint64, emit func(Case)) {
 		}
 	}
 }
+
+// forgetCallStr: like forgetCall, with a call whose TEXT contains a string literal (with blanks, a tab escape,
+// doubled blanks, none): Forget/Changed name the call by exactly that text.
+func forgetCallStr(maxCycle uint64, emit func(Case)) {
+	world := func() *ref.World {
+		w := ref.NewWorld()
+		w.Objs["F"] = facts.New()
+		return w
+	}
+	lits := []struct{ name, lit, esc string }{
+		{"blank", `"hot item"`, `\"hot item\"`}, {"two-blanks", `"a  b"`, `\"a  b\"`}, {"no-blank", `"hot"`, `\"hot\"`}, {"leading-blank", `" x"`, `\" x\"`},
+	}
+	shapes := []struct{ name, tmpl string }{
+		{"negated", "!F.TagIs(%s)"}, {"and-left", "!F.TagIs(%s) && F.K < 5"}, {"eq-false", "F.TagIs(%s) == false"},
+	}
+	for _, l := range lits {
+		for _, sh := range shapes {
+			for _, fn := range []string{"Forget", "Changed"} {
+				for si := 0; si < 2; si++ {
+					call := "F.TagIs(" + l.lit + ")"
+					ra := grl.R("ra", nil, strings.ReplaceAll(sh.tmpl, "%s", l.lit), "F.S = "+l.lit, fn+`("F.TagIs(`+l.esc+`)")`)
+					rules := []*grl.Rule{ra}
+					if si == 1 {
+						rules = append(rules, grl.R("reader", nil, call+" && F.K < 1", "F.K = 1"))
+					}
+					emit(Case{ID: fmt.Sprintf("forgetcallstr/%s/%s/%s/%d", l.name, sh.name, fn, si), Rules: rules,
+						Worlds: []func() *ref.World{world}, WorldNames: []string{"zero"}, Opts: hx.RunOpts{MaxCycle: maxCycle},
+						Meta: map[string]string{"loc": "call-with-string-literal", "alias": "forget-by-call-text", "form": fn, "shape": sh.name + ":" + l.name}})
+				}
+			}
+		}
+	}
+}
